@@ -9612,6 +9612,13 @@ def _write_node(node, xml_tree=None, viewport_transform=None):
         else:
             xml_tree.attrib.pop(key, None)
 
+    def restate_size(xml_tree, key, value):
+        """A size of zero disables rendering, it is not the default a reader assumes: written as it is."""
+        if value is not None and not isinstance(value, bool) and value == 0:
+            xml_tree.set(key, str(value))
+        else:
+            restate(xml_tree, key, value)
+
     if isinstance(node, SVG):
         if xml_tree is None:
             xml_tree = subxml(xml_tree, SVG_NAME_TAG)
@@ -9623,8 +9630,8 @@ def _write_node(node, xml_tree=None, viewport_transform=None):
             xml_tree = subxml(xml_tree, SVG_NAME_TAG)
         restate(xml_tree, SVG_ATTR_X, node.x)
         restate(xml_tree, SVG_ATTR_Y, node.y)
-        restate(xml_tree, SVG_ATTR_WIDTH, node.width)
-        restate(xml_tree, SVG_ATTR_HEIGHT, node.height)
+        restate_size(xml_tree, SVG_ATTR_WIDTH, node.width)
+        restate_size(xml_tree, SVG_ATTR_HEIGHT, node.height)
         restate(xml_tree, SVG_ATTR_VIEWBOX, node.viewbox)
         restate(
             xml_tree,
@@ -9650,21 +9657,21 @@ def _write_node(node, xml_tree=None, viewport_transform=None):
         xml_tree = subxml(xml_tree, SVG_TAG_ELLIPSE)
         restate(xml_tree, SVG_ATTR_CENTER_X, node.cx)
         restate(xml_tree, SVG_ATTR_CENTER_Y, node.cy)
-        restate(xml_tree, SVG_ATTR_RADIUS_X, node.rx)
-        restate(xml_tree, SVG_ATTR_RADIUS_Y, node.ry)
+        restate_size(xml_tree, SVG_ATTR_RADIUS_X, node.rx)
+        restate_size(xml_tree, SVG_ATTR_RADIUS_Y, node.ry)
     elif isinstance(node, Circle) and node.rx != node.ry:
         # Reified by an uneven scale a circle has two radii, only an ellipse can state them.
         xml_tree = subxml(xml_tree, SVG_TAG_ELLIPSE)
         xml_tree.attrib.pop(SVG_ATTR_RADIUS, None)
         restate(xml_tree, SVG_ATTR_CENTER_X, node.cx)
         restate(xml_tree, SVG_ATTR_CENTER_Y, node.cy)
-        restate(xml_tree, SVG_ATTR_RADIUS_X, node.rx)
-        restate(xml_tree, SVG_ATTR_RADIUS_Y, node.ry)
+        restate_size(xml_tree, SVG_ATTR_RADIUS_X, node.rx)
+        restate_size(xml_tree, SVG_ATTR_RADIUS_Y, node.ry)
     elif isinstance(node, Circle):
         xml_tree = subxml(xml_tree, SVG_TAG_CIRCLE)
         restate(xml_tree, SVG_ATTR_CENTER_X, node.cx)
         restate(xml_tree, SVG_ATTR_CENTER_Y, node.cy)
-        restate(xml_tree, SVG_ATTR_RADIUS, node.rx)
+        restate_size(xml_tree, SVG_ATTR_RADIUS, node.rx)
     elif isinstance(node, Image):
         xml_tree = subxml(xml_tree, SVG_TAG_IMAGE)
         from base64 import b64encode
@@ -9712,8 +9719,8 @@ def _write_node(node, xml_tree=None, viewport_transform=None):
         restate(xml_tree, SVG_ATTR_Y, node.y)
         restate(xml_tree, SVG_ATTR_RADIUS_X, node.rx)
         restate(xml_tree, SVG_ATTR_RADIUS_Y, node.ry)
-        restate(xml_tree, SVG_ATTR_WIDTH, node.width)
-        restate(xml_tree, SVG_ATTR_HEIGHT, node.height)
+        restate_size(xml_tree, SVG_ATTR_WIDTH, node.width)
+        restate_size(xml_tree, SVG_ATTR_HEIGHT, node.height)
     elif isinstance(node, Text):
         xml_tree = subxml(xml_tree, SVG_TAG_TEXT)
         xml_tree.text = node.text
